@@ -35,8 +35,8 @@ META = {
     "level_text": "All byte values 0..255 and 30 non-Latin-1 code points (incl. every code point whose Unicode case mapping is "
                   "pure ASCII: long s, dotless i, Kelvin sign, sharp s, ff..st ligatures, and NFKC look-alikes) at start/middle/end "
                   "(names: also at the start of a dash-separated word) of benign strings, plus look-alike spellings of real header "
-                  "names (Set-Cookie, Content-Length, Transfer-Encoding ...) through 30 API "
-                  "paths (set_header/add_header name and value as str/bytes, int, datetime, set_status reason, HTTPError reason, "
+                  "names (Set-Cookie, Content-Length, Transfer-Encoding ...) through 33 API "
+                  "paths (set_header/add_header name and value as str/bytes, int, datetime, set_status reason, HTTPError reason, send_error(reason=) called by the application directly / with exc_info / after buffered output, "
                   "redirect, set_cookie name/value/domain/path/samesite/extra attribute, clear_cookie, set_signed_cookie, "
                   "set_default_headers, raw write_headers with HTTPHeaders built by add vs []=, raw reason); thorough adds "
                   "pairs of special characters and random strings. Either rejected (exception + well-formed error response or "
@@ -97,6 +97,18 @@ def _http_error(h, p):
     raise web.HTTPError(500, reason=p)
 
 
+def _send_error_exc_info(h, p):
+    # what RequestHandler._handle_request_exception does, done by the application itself
+    e = web.HTTPError(503, reason=p)
+    h.send_error(503, exc_info=(type(e), e, None))
+
+
+def _send_error_after_write(h, p):
+    h.set_header("X-Discarded", "1")
+    h.write("partial output that send_error discards")
+    h.send_error(499, reason=p)
+
+
 PATHS = {
     "set_header.value.str": dict(pt="str", role="value", call=lambda h, p: h.set_header("X-T", p), intend=_val(b"x-t")),
     "set_header.value.bytes": dict(pt="bytes", role="value", call=lambda h, p: h.set_header("X-T", p), intend=_val(b"x-t")),
@@ -107,6 +119,13 @@ PATHS = {
     "set_header.name.bytes": dict(pt="bytes", role="name", call=lambda h, p: h.set_header(p, "v"), intend=_name),
     "set_status.reason": dict(pt="str", role="reason", call=lambda h, p: h.set_status(200, p), intend=lambda p: []),
     "HTTPError.reason": dict(pt="str", role="reason", call=_http_error, intend=lambda p: [], ok_status=500, error_path=True),
+    # the application calls send_error itself (not via a raised HTTPError): no exception, the error response is the answer
+    "send_error.reason": dict(pt="str", role="reason", call=lambda h, p: h.send_error(429, reason=p), intend=lambda p: [],
+                              ok_status=429, error_path=True),
+    "send_error.exc_info.reason": dict(pt="str", role="reason", call=_send_error_exc_info, intend=lambda p: [],
+                                       ok_status=503, error_path=True),
+    "send_error.after_write.reason": dict(pt="str", role="reason", call=_send_error_after_write, intend=lambda p: [],
+                                          ok_status=499, error_path=True),
     "redirect.url": dict(pt="str", role="value", call=lambda h, p: h.redirect(p), ok_status=302, body=b"",
                          intend=lambda p: [(b"location", strip_ows(p.encode("utf-8")))]),
     "set_cookie.name": dict(pt="str", role="cookie", call=lambda h, p: h.set_cookie(p, "cv"), cookie=(None, {"path"})),
